@@ -279,6 +279,9 @@ class _World:
             a = self.case["items"][j]["attr"]
             # list-valued attributes may be handed over as tuples ("as_tuple"): GraphCluster reads every non-str value as a
             # multiset (sorted(value)); BatchCluster must read it the same way (/repo fix after 6f9daf3, see known_findings.d)
+            if a is None:
+                d.pop(key, None)         # attribute ABSENT on this entry (str mode; the first entry of a GraphCluster call has one)
+                continue
             d[key] = (tuple(a) if self.case["items"][j].get("as_tuple") else list(a)) if isinstance(a, list) else a
 
     def use(self, idx):
@@ -572,6 +575,8 @@ def _in_domain(case):
                     if x is not None and (isinstance(x, bool) or not isinstance(x, (int, str))):
                         return False
             a = it["attr"]
+            if case["attr_mode"] == "str" and a is None:
+                continue
             if case["attr_mode"] == "str" and not (isinstance(a, str) and all(ord(c) < 128 for c in a)):
                 return False
             if case["attr_mode"] == "list" and not (isinstance(a, list) and all(isinstance(x, int) and not isinstance(x, bool) for x in a)):
@@ -625,7 +630,7 @@ def _coq_item(idx, it, case, I):
     if case["attr_mode"] == "none":
         att = "[]"
     elif case["attr_mode"] == "str":
-        att = clist([cZ(ord(c)) for c in a])
+        att = clist([cZ(-1)]) if a is None else clist([cZ(ord(c)) for c in a])      # absent attribute: a value no string has
     else:
         att = clist([cZ(x) for x in a])
     return "(MkItem %s %s %s)" % (cN(idx), att, G.coq_lgraph(it["g"], na, ea))
@@ -773,6 +778,8 @@ def _partition(classes):
 
 def _ref_key(case, i, nokey=False):
     a = case["items"][i]["attr"]
+    if a is None and case["attr_mode"] == "str" and not nokey:
+        return ("<absent>",)             # the entry carries no pre-grouping attribute at all (entry.get(key) is None)
     return None if (case["attr_mode"] == "none" or nokey) else (a if isinstance(a, str) else tuple(sorted(a)))
 
 
@@ -1110,6 +1117,8 @@ def oracle(case):
         done.add(tuple(op[1]))
         base = None
         for perm in (list(range(len(op[1]))), list(reversed(range(len(op[1])))), list(range(1, len(op[1]))) + [0]):
+            if case["attr_mode"] == "str" and case["items"][op[1][perm[0]]]["attr"] is None:
+                continue        # GraphCluster needs the FIRST entry's attribute to tell how attributes are compared (domain)
             W = _World(dict(case, shared=False, obj=None))
             data = [W.use(op[1][p]) for p in perm]
             W.gc().fit(data, W.rk, W.key(op))
@@ -2030,6 +2039,31 @@ def gen_cases(tier, rng):
     step = max(1, len(rest) // (len(heavy) + 1))
     for k, c in enumerate(heavy):
         rest.insert(min(len(rest), (k + 1) * step + k), c)
+    # pre-grouping attribute ABSENT on the entries of one isomorphism class (str mode; GraphCluster reads attributes[0] to decide
+    # how to compare, so the first entry of every one-shot call keeps its attribute)
+    for t in range(40 if quick else 300):
+        base = rng.sample(small_corpus if rng.random() < 0.6 else synth, rng.randint(2, 3))
+        size = rng.randint(4, 8)
+        items = _pool(rng, base, size)
+        _set_attrs(items, "str", True, rng, DEF_CFG, None)
+        k = rng.randrange(size)
+        cls = [j for j in range(size) if ref_iso(items[j]["g"], items[k]["g"])]
+        if len(cls) == size:
+            continue
+        for j in cls:
+            items[j]["attr"] = None
+        keep = [j for j in range(size) if j not in cls]
+        order = list(range(size))
+        rng.shuffle(order)
+        order.remove(keep[0])
+        order.insert(0, keep[0])
+        c = dict(kind="options/absent-attr", attr_mode="str", invariant=True, items=items, ops=[])
+        style(c, 0.5, False)
+        raw = [["gc_fit", order], ["fit", order, rng.choice([1, 2, 3])], ["reset"], ["cluster", order[::-1]], ["reset"],
+               ["lib_check", cls[0]], ["lib_check", keep[0]]] + [["lib_check", j] for j in order[1:4]] + [["fit", order, None]]
+        got = finish(c, raw, extras=False)
+        if got is not None:
+            rest.append(got)
     # list-valued pre-grouping attributes handed over as tuples (all items, or a random half: list vs tuple of the same multiset)
     for c in rest:
         if c["attr_mode"] == "list" and rng.random() < 0.3:
